@@ -46,7 +46,7 @@ class CoopLock:
         while self.owner is not None and self.owner != me:
             if not blocking:
                 return False
-            if ex is None or not ex.yield_blocked():
+            if ex is None or not ex.yield_blocked(self.owner):
                 raise Deadlock("thread blocks on a lock whose owner cannot run")
         self.owner = me
         return True
@@ -61,6 +61,26 @@ class CoopLock:
 
     def __exit__(self, *a):
         self.release()
+
+
+_REAL_LOCK_TYPES = (type(threading.Lock()), type(threading.RLock()))
+
+
+def coopify(*objects):
+    """Replace real lock objects held as attributes of the given objects (e.g. engines whose dataclass
+    field default_factory captured the real ``threading.Lock`` at import time) and as globals of the
+    library's modules by CoopLocks."""
+    import sys as _sys
+
+    for obj in objects:
+        for name, val in list(vars(obj).items()):
+            if isinstance(val, _REAL_LOCK_TYPES):
+                setattr(obj, name, CoopLock())
+    for modname, mod in list(_sys.modules.items()):
+        if modname.startswith("lsst.daf.relation") and mod is not None:
+            for name, val in list(vars(mod).items()):
+                if isinstance(val, _REAL_LOCK_TYPES):
+                    setattr(mod, name, CoopLock())
 
 
 class patched_locks:
@@ -88,6 +108,7 @@ class Execution:
         self.done = threading.Event()
         self.err = None
         self.opcode_events = 0
+        self.idents = {}
 
     # -- tracing
     def _tracer(self, frame, event, arg):
@@ -126,20 +147,21 @@ class Execution:
             self.sems[nxt].release()
             self.sems[me].acquire()
 
-    def yield_blocked(self):
-        """Called by a thread blocked on a CoopLock: run somebody else (free choice); False if nobody can."""
+    def yield_blocked(self, owner_ident):
+        """Called by a thread blocked on a CoopLock: hand the baton to the lock's owner - the only thread
+        whose progress can unblock the caller (a forced switch: no choice point, no preemption cost).
+        False if the owner is not a live thread of this execution (deadlock)."""
         me = self.tl.i
-        others = [i for i in range(len(self.bodies)) if i != me and self.alive[i]]
-        if not others:
+        owner = self.idents.get(owner_ident)
+        if owner is None or owner == me or not self.alive[owner]:
             return False
-        ch = self._choose("free", len(others)) if len(others) > 1 else 0
-        nxt = others[ch]
-        self.sems[nxt].release()
+        self.sems[owner].release()
         self.sems[me].acquire()
         return True
 
     def _thread(self, i):
         self.tl.i = i
+        self.idents[threading.get_ident()] = i
         self.sems[i].acquire()
         sys.settrace(self._tracer)
         try:
